@@ -95,6 +95,11 @@ def run_c18(rep, tier, seed):
                 continue
             n, u, v = comps(b.n), comps(b.u), comps(b.v)
             d = None
+            # directions are pure numbers whatever the requested normal measures (an angular momentum, a velocity): a basis
+            # carrying a unit cannot be combined with positions
+            for name, bv in (("n", b.n), ("u", b.u), ("v", b.v)):
+                if d is None and not bv.unit.dimensionless:
+                    d = f"unit: basis vector {name} carries the unit {bv.unit}"
             # single-precision input gives a single-precision basis
             tol = 1e-6 if any(str(getattr(cc, "dtype", "")) == "float32" for cc in common.comps_of(b.n).values()) else 1e-12
             for name, vec in (("n", n), ("u", u), ("v", v)):
